@@ -125,6 +125,7 @@ func genC09(ev *Ev) func(t *rapid.T) model.Case {
 			}
 			op.FARs = []model.FAR{{ID: 1, Action: model.ActFORW, HasFwd: true, DstIf: model.IfCore},
 				{ID: 2, Action: model.ActFORW, HasFwd: true, DstIf: model.IfAccess, HasOHC: true, TEID: 9, Peer: c.gnb}}
+			wireOrder(t, op.PDRs, op.FARs, op.QERs)
 			g.pdrs = op.PDRs
 			gss = append(gss, g)
 			ops = append(ops, op)
